@@ -577,7 +577,11 @@ class Gen:
             raise ValueError(stream)
         # programs without any definition cycle by construction: a 'recursive-definition' report on them is spurious
         acyclic = stream == "valid" or (stream == "deep" and "acyclic" in self.tags)
-        return {"files": files, "fs": fs, "charset": charset, "stream": stream, "tags": list(self.tags), "hit": sorted(self.hit), "acyclic": acyclic}
+        out = {"files": files, "fs": fs, "charset": charset, "stream": stream, "tags": list(self.tags), "hit": sorted(self.hit), "acyclic": acyclic}
+        for t in self.tags:
+            if t.startswith("must-fail:"):
+                out["expect"] = {"outcome": "failed", "diag": t.split(":", 1)[1]}
+        return out
 
     ACYCLIC_DEEP = ("deep:evens", "deep:long-expr", "deep:nest-brackets", "deep:nest-repeat",
                     "deep:label-chain", "deep:many-symbols", "deep:many-files")
@@ -834,7 +838,7 @@ class Gen:
     # ------------------------------------------------------------------ deep chains, many address-dependent sizes
     def deep(self):
         r = self.r
-        kind = r.choice(["add-chain", "add-chain", "nonlinear-chain", "nonlinear-chain", "evens", "evens", "long-expr", "nest-brackets", "nest-repeat", "label-chain", "size-chain", "mixed-aligns", "many-symbols", "many-files"])
+        kind = r.choice(["add-chain", "add-chain", "nonlinear-chain", "nonlinear-chain", "evens", "evens", "long-expr", "nest-brackets", "nest-repeat", "label-chain", "size-chain", "mixed-aligns", "many-symbols", "many-files", "alias-chain", "alias-chain", "nonadditive-ring"])
         self.tags.append("deep:" + kind)
         if "deep:" + kind in self.ACYCLIC_DEEP:
             self.tags.append("acyclic")
@@ -910,6 +914,25 @@ class Gen:
             lines = [f"q{i} = {i}" for i in range(n)] + [".word " + ", ".join(f"q{r.randrange(n)}" for _ in range(20))]
             if order == "backward":
                 lines.reverse()
+        elif kind == "alias-chain":
+            # plain aliases a0 = a1, a1 = a2, ...: one step of wait() per link, legal up to the `seen` bound of 1000
+            n = r.choice([10, 63, 64, 65, 100, 300, 999])
+            defs = [f"a{n} = {r.choice(['5', '. - .+ 3', '177777'])}"] + [f"a{i} = a{i + 1}" for i in range(n - 1, -1, -1)]
+            use = r.choice([".word a0", ".byte a0 & 7", "mov #a0, r0", ".blkb a0 & 3"])
+            lines = (defs + [use]) if order != "backward" else ([use] + defs[::-1])
+            if order == "shuffled":
+                d = list(defs)
+                r.shuffle(d)
+                lines = d + [use]
+            self.tags.append("acyclic")
+        elif kind == "nonadditive-ring":
+            # must be reported (quickly) as recursive-definition; G bounds the ring length at 10
+            n = r.choice([2, 3, 4, 7, 10])
+            op = r.choice(["* 2", "/ 2", "* 3 / 2", "& 255", "| 1", "_ 1", "% 7"])
+            lines = [f"m{i} = m{(i + 1) % n} {op}" for i in range(n)]
+            r.shuffle(lines)
+            lines.append(r.choice([".blkb m0", ".word m0", ".byte m1 & 1", "mov #m0, r1"]))
+            self.tags.append("must-fail:recursive-definition")
         else:  # many-files
             files = [(f"f{i}.mac", f"g{i}:: .word g{(i + 1) % 3}\n.extern all\nk{i} = {i}\n") for i in range(3)]
             return files, {}
